@@ -87,22 +87,52 @@ func VP_C18_ext4_superblock() {
 	}
 }
 
-// c18Read: ext4.Read on an image whose every byte is arbitrary.
-func c18Read(size int64) {
+// put overlays data (concrete and/or arbitrary bytes) on the image.
+func (d *c18Dev) put(off int64, data []byte) {
+	d.Log = append(d.Log, vpdev.WRec{Off: off, Len: len(data), Data: data})
+	if !vp.Symbolic() {
+		copy(d.img[off:], data)
+	}
+}
+
+// c18Read: the size computations of ext4.Read. The superblock is well-formed (magic, checksum type,
+// no metadata checksums, zero times/UUIDs) with ARBITRARY geometry: block count, blocks per group,
+// inodes per group, inode size, first data block; log block size and (64-bit variant) descriptor size
+// are case-split. The rest of the image is arbitrary. (superblockFromBytes on fully arbitrary bytes is
+// VP_C18_ext4_superblock.)
+func c18Read(size int64, logBlock uint32, is64 bool, descSize uint16) {
 	dev := c18NewDev("img", size)
+	sb := make([]byte, 1024)
+	binary.LittleEndian.PutUint16(sb[0x38:], 0xef53)
+	sb[0x175] = 1
+	binary.LittleEndian.PutUint32(sb[0x0:], vp.U32("inodeCount"))
+	binary.LittleEndian.PutUint32(sb[0x4:], vp.U32("blockCountLo"))
+	binary.LittleEndian.PutUint32(sb[0x14:], vp.U32("firstDataBlock"))
+	binary.LittleEndian.PutUint32(sb[0x18:], logBlock)
+	binary.LittleEndian.PutUint32(sb[0x20:], vp.U32("blocksPerGroup"))
+	binary.LittleEndian.PutUint32(sb[0x28:], vp.U32("inodesPerGroup"))
+	binary.LittleEndian.PutUint16(sb[0x58:], vp.U16("inodeSize"))
+	if is64 {
+		binary.LittleEndian.PutUint32(sb[0x60:], 0x80|0x40|0x2) // 64bit, extents, filetype
+		binary.LittleEndian.PutUint32(sb[0x150:], vp.U32("blockCountHi"))
+		binary.LittleEndian.PutUint16(sb[0xfe:], descSize)
+	} else {
+		binary.LittleEndian.PutUint32(sb[0x60:], 0x40|0x2)
+	}
+	dev.put(1024, sb)
 	limit := uint64(2*size + c18Slack)
 	vp.Unwind(70)
 	vp.AllocCap(vp.Bound("alloccap", 130, 200))
 	vp.AllocLimit(limit)
-	bpg := uint32(dev.ByteAt(1024+0x20)) | uint32(dev.ByteAt(1024+0x21))<<8 | uint32(dev.ByteAt(1024+0x22))<<16 | uint32(dev.ByteAt(1024+0x23))<<24
-	if bpg == 0 {
+	if binary.LittleEndian.Uint32(sb[0x20:]) == 0 {
 		// KF-C18-8: blocks per group = 0: division by zero in blockGroupCount
 		vp.KnownPanic("KF-C18-8", "superblock).blockGroupCount)")
 	}
-	gds := uint16(dev.ByteAt(1024+0xfe)) | uint16(dev.ByteAt(1024+0xff))<<8
-	if gds < 32 {
-		// KF-C18-9: 64-bit feature with a descriptor size below 32: the descriptor parser reads 32 bytes anyway
-		vp.KnownPanic("KF-C18-9", "ext4.groupDescriptorFromBytes)")
+	if is64 {
+		if descSize < 32 {
+			// KF-C18-9: 64-bit feature with a descriptor size below 32: the descriptor parser reads 32 bytes anyway
+			vp.KnownPanic("KF-C18-9", "ext4.groupDescriptorFromBytes)")
+		}
 	}
 	vp.NoPanic()
 	t0 := c18AllocBegin()
@@ -112,14 +142,18 @@ func c18Read(size int64) {
 	if err == nil {
 		vp.Assert(fs != nil, "filesystem returned")
 		vp.Assert(fs.superblock.blocksPerGroup != 0, "accepted superblock has blocks per group")
-		vp.Cover("arbitrary image accepted as ext4")
+		vp.Assert(len(fs.groupDescriptors.descriptors) >= 1, "at least one group descriptor")
+		vp.Cover("image accepted as ext4")
 	} else {
-		vp.Cover("arbitrary image rejected")
+		vp.Cover("image rejected")
 	}
 }
 
-func VP_C18_ext4_read_4k()  { c18Read(4096) }
-func VP_C18_ext4_read_64k() { c18Read(64 << 10) }
+func VP_C18_ext4_read_1k_32()     { c18Read(8192, 0, false, 0) }
+func VP_C18_ext4_read_1k_64_d64() { c18Read(8192, 0, true, 64) }
+func VP_C18_ext4_read_1k_64_d16() { c18Read(8192, 0, true, 16) }
+func VP_C18_ext4_read_4k_64_d32() { c18Read(16384, 2, true, 32) }
+func VP_C18_ext4_read_1k_64_d0()  { c18Read(8192, 0, true, 0) }
 
 // c18Gdt: groupDescriptorsFromBytes as Read calls it: count descriptors of an arbitrary size gdSize,
 // in a buffer of exactly gdSize*count bytes.
@@ -222,7 +256,9 @@ type c18CountDev struct {
 
 func (d *c18CountDev) ReadAt(p []byte, off int64) (int, error) {
 	d.reads++
-	vp.Assert(d.reads <= d.maxReads, "extent tree walk reads no more blocks than the image has")
+	// KF-C18-12: a child pointer leading back to a node already on the path (nothing checks that the
+	// depth decreases): unbounded recursion
+	vp.AssertUnless("KF-C18-12", true, d.reads <= d.maxReads, "extent tree walk reads no more blocks than the image has")
 	return d.MemDev.ReadAt(p, off)
 }
 
@@ -236,6 +272,10 @@ func VP_C18_ext4_extent_walk() {
 	fs := &FileSystem{superblock: &superblock{blockSize: bs}, backend: dev, size: int64(nb * bs)}
 	root := vp.Bytes("root", 60)
 	vp.Assume(binary.LittleEndian.Uint16(root[2:]) == 1)
+	for k := 0; k < nb; k++ {
+		vp.Assume(dev.ByteAt(int64(k*bs+3)) == 0)
+		vp.Assume(dev.ByteAt(int64(k*bs+2)) <= 1)
+	}
 	vp.Unwind(nb + 4)
 	vp.NoPanic()
 	node, err := parseExtents(root, bs, 0, vp.U32("blocks"))
@@ -251,3 +291,267 @@ func VP_C18_ext4_extent_walk() {
 	vp.AllowPanic()
 	vp.Cover("done")
 }
+
+// c18DirLinear: parseDirEntriesLinear on n arbitrary directory bytes (no checksums).
+func c18DirLinear(n int) {
+	b := vp.Bytes("dir", n)
+	vp.Unwind(n/12 + 4)
+	vp.MaxLoop(n/12 + 1)
+	// KF-C18-13: rec_len or name_len reaching beyond the end of the directory data are not checked
+	vp.KnownPanic("KF-C18-13", "ext4.parseDirEntriesLinear)")
+	vp.KnownPanic("KF-C18-13", "ext4.directoryEntryFromBytes)")
+	vp.NoPanic()
+	ents, err := parseDirEntriesLinear(b, false, uint32(n), 2, 0, 0)
+	vp.AllowPanic()
+	if err == nil {
+		vp.Assert(len(ents) <= n/12, "no more entries than minimum-size records fit")
+		vp.Assert(len(ents) >= 1, "non-empty directory data yields an entry")
+		vp.Assert(ents[0].inode == binary.LittleEndian.Uint32(b), "first inode decoded from offset 0")
+		vp.Cover("entries parsed")
+	} else {
+		vp.Cover("entries rejected")
+	}
+}
+
+func VP_C18_ext4_dir_linear_24() { c18DirLinear(24) }
+func VP_C18_ext4_dir_linear_40() { c18DirLinear(40) }
+
+// VP_C18_ext4_dir_linear_wellformed: the same parser on records whose rec_len/name_len stay inside
+// the data (the class outside KF-C18-13) must be clean.
+func VP_C18_ext4_dir_linear_wellformed() {
+	const n = 36
+	b := vp.Bytes("dir", n)
+	// three 12-byte records
+	for k := 0; k < 3; k++ {
+		vp.Assume(binary.LittleEndian.Uint16(b[12*k+4:]) == 12)
+		vp.Assume(b[12*k+6] <= 4)
+	}
+	vp.Unwind(8)
+	vp.MaxLoop(4)
+	vp.NoPanic()
+	ents, err := parseDirEntriesLinear(b, false, n, 2, 0, 0)
+	vp.AllowPanic()
+	vp.Assert(err == nil, "well-formed records are accepted")
+	vp.Assert(len(ents) == 3, "three records")
+	vp.Assert(len(ents[2].filename) == int(b[24+6]), "name length honoured")
+	vp.Cover("done")
+}
+
+// VP_C18_ext4_dir_checksummed: with metadata checksums the data is cut into blocks of blocksize bytes;
+// the data length comes from the inode's size field and need not be a multiple of the block size.
+func VP_C18_ext4_dir_checksummed() {
+	n := vp.Int("n")
+	vp.Assume(n >= 0)
+	vp.Assume(n <= 48)
+	all := vp.Bytes("dir", 48)
+	b := all[:n:n]
+	vp.Unwind(10)
+	if n%24 != 0 {
+		// KF-C18-14: directory size not a multiple of the block size
+		vp.KnownPanic("KF-C18-14", "ext4.parseDirEntriesLinear)")
+	}
+	vp.KnownPanic("KF-C18-13", "ext4.parseDirEntriesLinear)")
+	vp.KnownPanic("KF-C18-13", "ext4.directoryEntryFromBytes)")
+	vp.NoPanic()
+	_, err := parseDirEntriesLinear(b, true, 24, 2, 0, vp.U32("seed"))
+	vp.AllowPanic()
+	if err == nil {
+		vp.Cover("checksummed blocks accepted")
+	} else {
+		vp.Cover("checksummed blocks rejected")
+	}
+}
+
+// VP_C18_ext4_dx_root: parseDirectoryTreeRoot on one arbitrary block (64 bytes).
+func VP_C18_ext4_dx_root() {
+	const n = 64
+	b := vp.Bytes("blk", n)
+	cnt := int(binary.LittleEndian.Uint16(b[0x22:]))
+	vp.Unwind(12)
+	vp.AllocCap(16)
+	if 0x28+8*(cnt-1) > n {
+		// KF-C18-15: dx entry count beyond the block
+		vp.KnownPanic("KF-C18-15", "ext4.parseDirectoryTreeRoot)")
+	}
+	vp.NoPanic()
+	root, err := parseDirectoryTreeRoot(b, vp.Bool("largeDir"))
+	vp.AllowPanic()
+	if err == nil {
+		vp.Assert(root.depth <= 3, "depth limited")
+		vp.Assert(len(root.childEntries) >= 1, "at least the first child")
+		vp.Cover("dx root accepted")
+	} else {
+		vp.Cover("dx root rejected")
+	}
+}
+
+// VP_C18_ext4_dx_node: parseDirectoryTreeNode on one arbitrary block (40 bytes).
+func VP_C18_ext4_dx_node() {
+	const n = 40
+	b := vp.Bytes("blk", n)
+	cnt := int(binary.LittleEndian.Uint16(b[0xa:]))
+	vp.Unwind(12)
+	vp.AllocCap(16)
+	if 0x10+8*(cnt-1) > n {
+		vp.KnownPanic("KF-C18-15", "ext4.parseDirectoryTreeNode)")
+	}
+	vp.NoPanic()
+	node, err := parseDirectoryTreeNode(b)
+	vp.AllowPanic()
+	if err == nil {
+		vp.Assert(len(node.childEntries) >= 1, "at least the first child")
+		vp.Cover("dx node accepted")
+	} else {
+		vp.Cover("dx node rejected")
+	}
+}
+
+// VP_C18_ext4_dx_walk: parseDirEntriesHashed from a root with one arbitrary child entry over
+// directory data of 3 blocks of 24 bytes.
+func VP_C18_ext4_dx_walk() {
+	const bs = 24
+	b := vp.Bytes("dir", 3*bs)
+	blk := vp.U32("block")
+	root := &directoryHashRoot{depth: 0, childEntries: []directoryHashEntry{{hash: 0, block: blk}}}
+	vp.Unwind(8)
+	if blk >= 3 {
+		// KF-C18-16: dx child block number beyond the directory data
+		vp.KnownPanic("KF-C18-16", "ext4.parseDirEntriesHashed)")
+	}
+	vp.KnownPanic("KF-C18-13", "ext4.parseDirEntriesLinear)")
+	vp.KnownPanic("KF-C18-13", "ext4.directoryEntryFromBytes)")
+	vp.NoPanic()
+	_, err := parseDirEntriesHashed(b, 0, root, bs, false, 2, 0, 0)
+	vp.AllowPanic()
+	if err == nil {
+		vp.Cover("hashed entries parsed")
+	} else {
+		vp.Cover("hashed entries rejected")
+	}
+}
+
+// VP_C18_ext4_xattr: parseXattrEntries on an arbitrary region (entries == values as for in-inode xattrs).
+func VP_C18_ext4_xattr() {
+	n := vp.Bound("xattrbytes", 40, 72)
+	b := vp.Bytes("xattr", n)
+	// attribute name indexes select map keys: keep them concrete (1 = "user."); the list then ends
+	// by running out of bytes
+	for k := 0; k+16 <= n; k += 4 {
+		b[k+1] = 1
+	}
+	vp.Unwind(n/16 + 3)
+	vp.MaxLoop(n/16 + 1)
+	vp.AllocCap(n)
+	vp.AllocLimit(uint64(n))
+	vp.NoPanic()
+	m, err := parseXattrEntries(b, b)
+	vp.AllowPanic()
+	if err == nil {
+		vp.Assert(len(m) <= n/16, "no more attributes than entries fit")
+		vp.Cover("xattrs parsed")
+	} else {
+		vp.Cover("xattrs rejected")
+	}
+}
+
+// VP_C18_ext4_read_inode_raw: readInodeRaw for an arbitrary inode number (as found in a directory
+// entry) on a filesystem with one block group and arbitrary inodes-per-group.
+func VP_C18_ext4_read_inode_raw() {
+	dev := vpdev.NewMemDev("img", 64<<10)
+	dev.UF, dev.NoWrites = true, true
+	ipg := vp.U32("inodesPerGroup")
+	num := vp.U32("inode")
+	vp.Assume(num != 0)
+	sb := &superblock{blockSize: 1024, inodeSize: 256, inodesPerGroup: ipg}
+	fs := &FileSystem{superblock: sb, backend: dev, size: 64 << 10,
+		groupDescriptors: &groupDescriptors{descriptors: []groupDescriptor{{inodeTableLocation: 5}}}}
+	if ipg == 0 {
+		// KF-C18-17: inodes per group = 0
+		vp.KnownPanic("KF-C18-17", "ext4.FileSystem).readInodeRaw)")
+	} else if (num-1)/ipg >= 1 {
+		// KF-C18-18: inode number beyond the last block group
+		vp.KnownPanic("KF-C18-18", "ext4.FileSystem).readInodeRaw)")
+	}
+	vp.NoPanic()
+	b, err := fs.readInodeRaw(num)
+	vp.AllowPanic()
+	if err == nil {
+		vp.Assert(len(b) == 256, "one inode's bytes")
+		vp.Cover("inode bytes read")
+	} else {
+		vp.Cover("inode read failed")
+	}
+}
+
+// VP_C18_ext4_read_file_bytes: readFileBytes for two arbitrary extents and an arbitrary size field on
+// a 64 KiB image: no allocation beyond 2*size+slack.
+func c18ReadFileBytes(bs uint32) {
+	const size = 64 << 10
+	dev := c18NewDev("img", size)
+	fs := &FileSystem{superblock: &superblock{blockSize: bs}, backend: dev, size: size}
+	exts := extents{
+		{fileBlock: 0, startingBlock: vp.U64("e0.start"), count: vp.U16("e0.count")},
+		{fileBlock: vp.U32("e1.file"), startingBlock: vp.U64("e1.start"), count: vp.U16("e1.count")},
+	}
+	fsz := vp.U64("filesize")
+	limit := uint64(2*size + c18Slack)
+	vp.Unwind(6)
+	vp.AllocCap(int(bs) + 8)
+	vp.AllocLimit(limit)
+	vp.NoPanic()
+	t0 := c18AllocBegin()
+	b, err := fs.readFileBytes(exts, fsz)
+	c18AllocEnd(t0, limit)
+	vp.AllowPanic()
+	if err == nil {
+		vp.Assert(uint64(len(b)) <= fsz, "no more bytes than the size field")
+		vp.Cover("file bytes read")
+	} else {
+		vp.Cover("file bytes failed")
+	}
+}
+
+func VP_C18_ext4_read_file_bytes_1k() { c18ReadFileBytes(1024) }
+func VP_C18_ext4_read_file_bytes_64() { c18ReadFileBytes(64) }
+
+// c18FileRead: File.Read with two arbitrary extents, arbitrary size field and offset.
+func c18FileRead(bs uint32, buflen int) {
+	dev := &c18NullDev{}
+	fs := &FileSystem{superblock: &superblock{blockSize: bs}, backend: dev, size: 1 << 20}
+	exts := extents{
+		{fileBlock: vp.U32("e0.file"), startingBlock: vp.U64("e0.start"), count: vp.U16("e0.count")},
+		{fileBlock: vp.U32("e1.file"), startingBlock: vp.U64("e1.start"), count: vp.U16("e1.count")},
+	}
+	off := vp.I64("offset")
+	vp.Assume(off >= 0)
+	fl := &File{inode: &inode{size: vp.U64("size")}, offset: off, filesystem: fs, extents: exts}
+	b := make([]byte, buflen)
+	vp.Unwind(6)
+	vp.AllocCap(buflen)
+	if bs == 0 {
+		// KF-C18-19: block size 0 (s_log_block_size = 22 makes 2^32 wrap to 0)
+		vp.KnownPanic("KF-C18-19", "ext4.File).Read)")
+	} else {
+		// KF-C18-20: an extent that ends before the block holding the offset is only skipped when it ends
+		// more than one block before it: negative length for make()
+		vp.KnownPanic("KF-C18-20", "ext4.File).Read)")
+	}
+	vp.NoPanic()
+	n, err := fl.Read(b)
+	vp.AllowPanic()
+	vp.Assert(n >= 0, "count not negative")
+	vp.Assert(n <= buflen, "count at most len(b)")
+	if err == nil {
+		vp.Cover("read without error")
+	} else {
+		vp.Cover("read with error or EOF")
+	}
+}
+
+// c18NullDev delivers every read in full without touching the buffer.
+type c18NullDev struct{ vpdev.MemDev }
+
+func (d *c18NullDev) ReadAt(p []byte, off int64) (int, error) { return len(p), nil }
+
+func VP_C18_ext4_file_read_1024() { c18FileRead(1024, 100) }
+func VP_C18_ext4_file_read_0()    { c18FileRead(0, 100) }
